@@ -120,8 +120,11 @@ def fold_rule(prog, rep):
     if not seed_ok:
         # tolerate formatting: look structurally
         for s in pre:
-            if isinstance(s, ast.If) and norm(s.test) == ev and len(s.body) == 1 and norm(s.body[0]) == f"{acc}.append({ev}.pop(0))" and it == ev and f"{acc} = []" in pre_txt:
-                seed_ok = True
+            from ..normalize import _is_log_call as _islog
+
+            body_ = [b for b in s.body if not (isinstance(b, ast.Expr) and isinstance(b.value, ast.Call) and _islog(b.value))] if isinstance(s, ast.If) else []
+            if isinstance(s, ast.If) and norm(s.test) == ev and len(body_) == 1 and norm(body_[0]) == f"{acc}.append({ev}.pop(0))" and it == ev and f"{acc} = []" in pre_txt:
+                seed_ok = True  # (a logging statement next to the seed changes nothing: LOG-TOTAL decides that it cannot fail)
     if not seed_ok:
         # through single-assignment locals: acc = seed; seed = [events.pop(0)] behind `if not events: return []`
         from ..trace import deep as _deep8
